@@ -1210,6 +1210,19 @@ class TlsExtensionVariantBase(VariantParsable):
         raise NotImplementedError()
 
     @classmethod
+    def _parse(cls, parsable):
+        try:
+            return super(TlsExtensionVariantBase, cls)._parse(parsable)
+        except NotEnoughData as e:
+            header_size = 4
+            if len(parsable) >= header_size:
+                extension_size = header_size + ((six.indexbytes(parsable, 2) << 8) | six.indexbytes(parsable, 3))
+                if len(parsable) >= extension_size:
+                    # the extension is there in full: its body declares more than it holds, no further byte can help
+                    six.raise_from(InvalidValue(bytes(parsable[:extension_size]), cls), e)
+            raise
+
+    @classmethod
     def _get_variants(cls):
         variants = cls.get_parsed_extensions()
 
